@@ -260,14 +260,26 @@ fn rejections(ctx: &mut Ctx, layer: &'static Layer, depth: u8) {
   for &bad in bad_cell_numbers(&mut rng, depth).iter() {
     let mut chk = |name: &str, r: bool| { ctx.eval(); if r { ctx.violation(&format!("{}-accepts-cell-number>=n_hash", name), Case::new("bad").u("depth", depth as u64).u("h", bad).s("fn", name), String::new()); } else { ctx.bump("rejections-observed"); ctx.hard("rejected-cell-number", &[depth as u64, bad, name.len() as u64]); } };
     chk("center", catch(|| layer.center(bad)).is_ok());
+    chk("nested::center", catch(|| nested::center(depth, bad)).is_ok());
+    chk("center_of_projected_cell", catch(|| layer.center_of_projected_cell(bad)).is_ok());
     chk("vertices", catch(|| layer.vertices(bad)).is_ok());
-    chk("vertex", catch(|| layer.vertex(bad, Cardinal::N)).is_ok());
+    chk("nested::vertices", catch(|| nested::vertices(depth, bad)).is_ok());
+    // every accessor with every shape of its other arguments, including the degenerate ones (empty set, zero segments / points):
+    // the cell number must be checked whatever else is asked
+    for k in 0..4 { chk("vertex", catch(|| layer.vertex(bad, card(k))).is_ok()); }
     chk("vertices_map", catch(|| layer.vertices_map(bad, CardinalSet::all())).is_ok());
-    chk("sph_coo", catch(|| layer.sph_coo(bad, 0.5, 0.5)).is_ok());
+    { let mut one = CardinalSet::new(); one.set(card(1), true); chk("vertices_map(one)", catch(|| layer.vertices_map(bad, one)).is_ok()); }
+    for &(dx, dy) in [(0.5, 0.5), (0.0, 0.0), (0.999, 0.0), (0.25, 0.75)].iter() { chk("sph_coo", catch(|| layer.sph_coo(bad, dx, dy)).is_ok()); }
+    chk("nested::sph_coo", catch(|| nested::sph_coo(depth, bad, 0.5, 0.5)).is_ok());
     chk("neighbours", catch(|| layer.neighbours(bad, false)).is_ok());
-    chk("grid", catch(|| layer.grid(bad, 2)).is_ok());
-    chk("path_along_cell_edge", catch(|| layer.path_along_cell_edge(bad, &Cardinal::S, false, 2)).is_ok());
-    chk("path_along_cell_side", catch(|| layer.path_along_cell_side(bad, &Cardinal::S, &Cardinal::E, false, 2)).is_ok());
+    chk("neighbours(include_center)", catch(|| layer.neighbours(bad, true)).is_ok());
+    for &n in [1u16, 2, 3].iter() { chk("grid", catch(|| layer.grid(bad, n)).is_ok()); }
+    chk("nested::grid", catch(|| nested::grid(depth, bad, 2)).is_ok());
+    for k in 0..4 { for &cw in [false, true].iter() { for &n in [1u32, 2].iter() { chk("path_along_cell_edge", catch(|| layer.path_along_cell_edge(bad, &card(k), cw, n)).is_ok()); } } }
+    chk("nested::path_along_cell_edge", catch(|| nested::path_along_cell_edge(depth, bad, &Cardinal::S, false, 2)).is_ok());
+    for &(a, b) in [(0usize, 1usize), (1, 2), (2, 3), (3, 0), (0, 3)].iter() { for &inc in [false, true].iter() { for &n in [0u32, 1, 2].iter() {
+      chk(if n == 0 { "path_along_cell_side(0 segments)" } else { "path_along_cell_side" }, catch(|| layer.path_along_cell_side(bad, &card(a), &card(b), inc, n)).is_ok()); } } }
+    chk("nested::path_along_cell_side", catch(|| nested::path_along_cell_side(depth, bad, &Cardinal::S, &Cardinal::E, false, 2)).is_ok());
     let _ = MainWind::N;
   }
 }
